@@ -157,6 +157,8 @@ type meRun struct {
 	prop  string
 	// sameInstant: the next op happens at the same clock reading as the previous one
 	sameInstant bool
+	// dup: the next SetEndpoints list has a repeated entry; dupMode: such a list was accepted
+	dup, dupMode bool
 }
 
 var meNames = []string{"A", "B", "C", "D", "E"}
@@ -198,6 +200,13 @@ func (h *meRun) check(step string, prevCur string, isTimer bool, quiescent bool)
 	h.hit("C13.membership")
 	if m.prio(got) < 0 {
 		h.fail("C13.membership", "", "%s: Current()=%q is not in the accepted list %v", step, got, m.list)
+		return
+	}
+	if h.dupMode {
+		// a list with a repeated entry was accepted earlier: the statements do not
+		// say which occurrence gives the priority, so only membership (and totality)
+		// are judged for the rest of this history
+		m.cur = got
 		return
 	}
 	pc := m.prio(prevCur)
@@ -400,7 +409,7 @@ func meRunHistory(rng *vRand, r, d time.Duration, n int, late bool, idx int64, p
 	}
 	h.m.expire(clk.now)
 	got := h.me.Current()
-	if ta := h.m.topA(); ta != "" {
+	if ta := h.m.topA(); ta != "" && !h.dupMode {
 		h.hit("C14.convergence")
 		if got != ta {
 			h.fail("C14.convergence", h.cfgClass(), "inputs stopped and all timers fired: Current()=%s but the highest-priority available endpoint is %s", got, ta)
@@ -458,6 +467,13 @@ func (h *meRun) step() {
 		var l []string
 		for _, p := range perm[:kk] {
 			l = append(l, meNames[p])
+		}
+		if len(l) > 0 && rng.Intn(12) == 0 {
+			// a list that names an endpoint twice
+			l = append(l, l[rng.Intn(len(l))])
+			i := rng.Intn(len(l))
+			l[i], l[len(l)-1] = l[len(l)-1], l[i]
+			h.dup = true
 		}
 		h.opSet(l)
 	default:
@@ -533,6 +549,18 @@ func (h *meRun) opSet(l []string) {
 			h.fail("C13.empty-nochange", "", "rejected empty list changed Current() %s->%s", prev, h.me.Current())
 		}
 		return
+	}
+	if h.dup {
+		h.dup = false
+		h.hit("C13.duplicate-list")
+		if err != nil {
+			// rejecting such a list is fine, as long as nothing changes
+			if h.me.Current() != prev {
+				h.fail("C13.empty-nochange", "duplicate", "rejected list %v changed Current() %s->%s", l, prev, h.me.Current())
+			}
+			return
+		}
+		h.dupMode = true
 	}
 	if err != nil {
 		h.fail("C13.set-error", "", "SetEndpoints(%v): %v", l, err)
